@@ -105,6 +105,11 @@ func (h *prodHooks) OnProduceRecordUnbuffered(r *kgo.Record, err error) {
 	}
 }
 
+// topicPad lengthens the names of the seeded topics (knob topic_pad; one run
+// per process, so a package variable is safe): request size accounting
+// depends on the length of topic names.
+var topicPad string
+
 func topicName(i int64) string {
 	switch i {
 	case -1:
@@ -112,7 +117,7 @@ func topicName(i int64) string {
 	case -2:
 		return "nope"
 	}
-	return fmt.Sprintf("t%d", i)
+	return fmt.Sprintf("t%d", i) + topicPad
 }
 
 func topicIndex(t string) int64 {
@@ -392,6 +397,9 @@ func scenProduce(s *Sim) {
 	nb := int(p.Knob("nbroker", 3))
 	nparts := int32(p.Knob("nparts", 3))
 	ntopics := int(p.Knob("ntopics", 1))
+	if n := p.Knob("topic_pad", 0); n > 0 {
+		topicPad = "-" + strings.Repeat("x", int(n))
+	}
 	var topics []string
 	for i := 0; i < ntopics; i++ {
 		topics = append(topics, topicName(int64(i)))
@@ -403,6 +411,9 @@ func scenProduce(s *Sim) {
 	if p.Knob("mixed_versions", 0) != 0 {
 		// brokers of one cluster negotiate different produce versions
 		capProduceVersions(s, []int16{0, int16(p.Knob("old_produce_ver", 6)), 0, int16(p.Knob("old_produce_ver2", 3))})
+	} else if v := p.Knob("produce_cap_all", 0); v > 0 {
+		// a cluster of an older release: every broker stops at this version
+		capProduceVersions(s, []int16{int16(v)})
 	}
 
 	wm := newProduceWire(s, st)
